@@ -11,5 +11,5 @@ Extraction "model.ml"
   prefix_path prefixfs_call prefixfs_readlink_result prefixfs_file_name prefixfs_info_name
   volumefs_call volumefs_readlink_result hiddenfs_call hidden_norm
   is_hidden is_parent_of_hidden dir_contains to_abs_symlink hidden_list_calls
-  step cfg_base cfg_backup init_world init_dir init_file init_link with_crash with_faults
+  step step_direct cfg_base_unspied cfg_base cfg_backup init_world init_dir init_file init_link with_crash with_faults
   dump_fs dump_infos dump_trace mkConfig mkFault triggers.
